@@ -6,6 +6,7 @@ import (
 
 	mintertypes "github.com/chain4energy/c4e-chain/x/cfeminter/types"
 	sdk "github.com/cosmos/cosmos-sdk/types"
+	stakingtypes "github.com/cosmos/cosmos-sdk/x/staking/types"
 	"pgregory.net/rapid"
 )
 
@@ -25,6 +26,18 @@ func TestC19(t *testing.T) {
 		// vary the supply
 		extra := genAmount(t, "extraSupply", 30, false)
 		FundAccount(w.App, ctx, KeyAcc(6).Addr, sdk.NewCoins(sdk.NewCoin(cfg.Denom, sdk.NewIntFromBigInt(extra))))
+
+		unbonding := false
+		if rapid.IntRange(0, 2).Draw(t, "unbonding") == 0 {
+			// part of the supply sits in the staking module's not-bonded pool (an unbonding delegation)
+			del := KeyAcc(3)
+			amt := sdk.NewIntFromBigInt(genAmount(t, "unbondAmt", 23, false))
+			d := RunMsg(w.App, ctx, &stakingtypes.MsgDelegate{DelegatorAddress: del.Addr.String(), ValidatorAddress: w.ValAddr.String(), Amount: sdk.NewCoin(Denom, amt.MulRaw(2))})
+			u := RunMsg(w.App, ctx, &stakingtypes.MsgUndelegate{DelegatorAddress: del.Addr.String(), ValidatorAddress: w.ValAddr.String(), Amount: sdk.NewCoin(Denom, amt)})
+			if d.OK() && u.OK() && w.App.BankKeeper.GetBalance(ctx, ModuleAddr(stakingtypes.NotBondedPoolName), Denom).Amount.IsPositive() {
+				unbonding = true
+			}
+		}
 
 		query := func(at int64) sdk.Dec {
 			resp, err := w.App.CfeminterKeeper.Inflation(sdk.WrapSDKContext(ctx.WithBlockTime(nsTime(at))), &mintertypes.QueryInflationRequest{})
@@ -50,6 +63,9 @@ func TestC19(t *testing.T) {
 			ps = *sched.Periods[k-1].End
 		}
 		classes := []string{"kind_" + p.Kind.String()}
+		if unbonding {
+			classes = append(classes, "coins_in_the_not_bonded_pool")
+		}
 
 		// zero case: before the start time
 		if rapid.IntRange(0, 11).Draw(t, "beforeStart") == 0 {
